@@ -172,12 +172,12 @@ def snap_diff(a, b, tol):
     from .common import relerr
     if sorted(a) != sorted(b):
         return False, f"different outputs {sorted(a)} vs {sorted(b)}"
-    worst, name = 0.0, None
-    for k in a:
+    worst, name = 0.0, sorted(a)[0] if a else None
+    for k in sorted(a):
         scale = float(np.max(np.abs(b[k]))) if b[k].size else 0.0
         e = relerr(a[k], b[k], floor=scale if scale > 0 else 1.0)
-        if e > worst or name is None:
-            worst, name = max(worst, e), (k if e >= worst else name)
+        if e > worst:
+            worst, name = e, k
     return worst <= tol, f"max relative deviation {worst:.3e} at {name}"
 
 
